@@ -179,7 +179,7 @@ func smrChild(casePath string) {
 	if in.Points == "fine" {
 		spoints = []int{skiplist.VerifPtInsPub, skiplist.VerifPtInsOwn, skiplist.VerifPtInsLink, skiplist.VerifPtInsCheck, skiplist.VerifPtSdCas, skiplist.VerifPtFPH}
 	} else if in.Points == "finest" {
-		spoints = []int{skiplist.VerifPtInsPub, skiplist.VerifPtInsOwn, skiplist.VerifPtInsLink, skiplist.VerifPtInsCheck, skiplist.VerifPtInsSucc, skiplist.VerifPtSdCas, skiplist.VerifPtFPH, skiplist.VerifPtFP2, skiplist.VerifPtSdLoad}
+		spoints = []int{skiplist.VerifPtInsPub, skiplist.VerifPtInsOwn, skiplist.VerifPtInsLink, skiplist.VerifPtInsCheck, skiplist.VerifPtInsSucc, skiplist.VerifPtSdCas, skiplist.VerifPtFPH, skiplist.VerifPtFP2, skiplist.VerifPtSdLoad, skiplist.VerifPtAcqLoaded}
 	} else {
 		spoints = []int{skiplist.VerifPtInsPub}
 	}
